@@ -19,6 +19,7 @@ package psx
 import (
 	"fmt"
 	"os"
+	"path/filepath"
 	"regexp"
 	"sort"
 	"strings"
@@ -282,4 +283,508 @@ func sigsOf(prop string, c DfCase, viol []string) []string {
 	}
 	sort.Strings(out)
 	return out
+}
+
+// ---------------------------------------------------------------------------
+// C06 with real processes.
+
+// BFaultCase is the replayable unit of the real-binary fault phase.
+type BFaultCase struct {
+	Tier    string `json:"tier"`
+	Shape   DfCase `json:"shape"`
+	Fault   Fault  `json:"fault"`
+	Retries int    `json:"retries,omitempty"`
+}
+
+// process-level manifestations (cmd/vstage implements them)
+var bFaultKinds = []string{"exit1", "kill9", "segv", "errors-early", "assert-early", "panic", "exit1-late", "kill9-late", "kill-monitor"}
+
+func evalBFault(c BFaultCase, p *progen.Program, ref *progen.RefResult) (viol []string, class string) {
+	f := c.Fault
+	r1 := RunB(p, BOptions{Fault: &f, AutoRetry: c.Retries, KeepDir: true, Timeout: 90 * time.Second})
+	if r1.Err != "" {
+		return nil, "not-started"
+	}
+	defer r1.Cleanup()
+	res := AsResult(p, r1)
+	failedPath := ""
+	attempts := map[string]int{}
+	for _, j := range res.Jobs {
+		attempts[j.Key]++
+		if j.Key == f.Job {
+			failedPath = j.Path
+		}
+	}
+	if failedPath == "" {
+		return nil, "fault-site-not-reached"
+	}
+	success := r1.Exit == 0 || strings.Contains(r1.Console, "Pipestance completed successfully")
+	if c.Retries > 0 {
+		// the failure is transient for mrp's default retry patterns exactly
+		// when the job (or its monitor) died from a signal
+		transient := f.Kind == "kill-monitor"
+		class = fmt.Sprintf("retry:exit=%d", r1.Exit)
+		if r1.TimedOut {
+			return []string{"mrp did not end within 90 s with automatic retry enabled"}, class
+		}
+		if transient && f.Times > 0 && f.Times <= c.Retries {
+			if r1.Exit != 0 || !strings.Contains(r1.Console, "Pipestance completed successfully") {
+				fq, log := ParseFailure(r1.Console)
+				return []string{fmt.Sprintf("the monitor of job %s was killed %d time(s) with --autoretry=%d, but mrp ended with exit status %d: %s: %s",
+					f.Job, f.Times, c.Retries, r1.Exit, fq, firstLine(log))}, class
+			}
+			if res.TopOuts == nil {
+				viol = append(viol, "no readable outputs after the automatic retry")
+			} else if d := progen.EqSlack(ref.TopOuts, res.TopOuts, "outs"); d != "" {
+				viol = append(viol, "outputs after the automatic retry differ from the fault-free result: "+d)
+			}
+			for k, n := range attempts {
+				want := 1
+				if k == f.Job {
+					want = f.Times + 1
+				}
+				if n != want {
+					viol = append(viol, fmt.Sprintf("job %s was executed %d time(s) in a run with %d transient failure(s) of %s, expected %d", k, n, f.Times, f.Job, want))
+				}
+			}
+			return viol, class
+		}
+		if success {
+			return []string{fmt.Sprintf("job %s kept failing (%s, --autoretry=%d) but mrp reported success", f.Job, f.Kind, c.Retries)}, class
+		}
+		if !transient && attempts[f.Job] > 1 {
+			viol = append(viol, fmt.Sprintf("a non-transient failure (%s) of job %s was answered by an automatic restart (%d executions)", f.Kind, f.Job, attempts[f.Job]))
+		}
+		return viol, class
+	}
+	class = fmt.Sprintf("exit=%d", r1.Exit)
+	if r1.TimedOut {
+		return []string{fmt.Sprintf("job %s failed (%s) but mrp neither failed nor finished within 90 s", f.Job, f.Kind)}, class
+	}
+	if success {
+		return []string{fmt.Sprintf("job %s failed (%s) but mrp reported success (exit status %d)", f.Job, f.Kind, r1.Exit)}, class
+	}
+	fq, log := ParseFailure(r1.Console)
+	wantPrefix := "ID." + Psid + "." + failedPath
+	if f.Kind != "assert-early" {
+		// assertions are printed without the path of the error log
+		if !strings.HasPrefix(fq, wantPrefix) {
+			viol = append(viol, fmt.Sprintf("mrp's error report names %q (%s), the failing stage is %s", fq, firstLine(log), wantPrefix))
+		}
+	} else if !strings.Contains(r1.Console, "verif: stage assertion") {
+		viol = append(viol, "mrp's console output does not show the failed assertion of "+wantPrefix)
+	}
+	depd := closureDependents(ref, failedPath)
+	for _, j := range res.Jobs {
+		if depd[j.Path] {
+			viol = append(viol, fmt.Sprintf("job %s of call %s was started although it depends on the failed call %s", j.Key, j.Path, failedPath))
+		}
+		if j.Path != failedPath && j.Finished && j.How != "complete" {
+			viol = append(viol, fmt.Sprintf("independent job %s ended %s", j.Key, j.How))
+		}
+	}
+	if r1.Lock {
+		viol = append(viol, "mrp exited after the failure and left the pipestance locked")
+	}
+	// restart without the fault
+	done := map[string]bool{}
+	for _, d := range r1.Completed {
+		done[d] = true
+	}
+	completedBefore := map[string]bool{}
+	for _, o := range r1.Obs {
+		rel := strings.TrimPrefix(o.MdPath, r1.PsDir+"/")
+		if o.How == "complete" && done[rel] && o.Key != f.Job {
+			completedBefore[o.Key] = true
+		}
+	}
+	r2 := RunB(p, BOptions{Dir: r1.Dir, Timeout: 90 * time.Second})
+	res2 := AsResult(p, r2)
+	if r2.TimedOut || r2.Exit != 0 || res2.State != "complete" {
+		fq2, log2 := ParseFailure(r2.Console)
+		return append(viol, fmt.Sprintf("restart after removing the fault ended with exit status %d (timed out: %v): %s: %s", r2.Exit, r2.TimedOut, fq2, firstLine(log2))), class
+	}
+	if res2.TopOuts == nil {
+		viol = append(viol, "no readable outputs after restart")
+	} else if d := progen.EqSlack(ref.TopOuts, res2.TopOuts, "outs"); d != "" {
+		viol = append(viol, "outputs after restart differ from the fault-free result: "+d)
+	}
+	var rerun []string
+	for _, o := range r2.Obs {
+		if completedBefore[o.Key] {
+			rerun = append(rerun, o.Key)
+		}
+	}
+	sort.Strings(rerun)
+	for _, k := range rerun {
+		viol = append(viol, "job "+k+" had completed successfully before the failure and was executed again on restart")
+	}
+	return viol, class
+}
+
+// TierBFaults is the real-binary phase of C06.
+func TierBFaults(r *ev.Run) {
+	if os.Getenv("VERIF_NO_TIERB") != "" {
+		return
+	}
+	deadline := tierBDeadline(r, 50*time.Second, 12*time.Minute)
+	shapes := Shapes(true)
+	if !r.Thorough() {
+		shapes = []DfCase{shapes[2], shapes[3], shapes[5]}
+	}
+	type item struct {
+		c   BFaultCase
+		p   *progen.Program
+		ref *progen.RefResult
+	}
+	var items []item
+	for si, sh := range shapes {
+		p := sh.Build()
+		if p == nil {
+			continue
+		}
+		ref, err := progen.Interpret(p)
+		if err != nil {
+			continue
+		}
+		seen := map[string]bool{}
+		var keys []string
+		for _, j := range Run(p, Schedule{}, Options{MrpPid: 5151}).Jobs {
+			if !seen[j.Key] {
+				seen[j.Key] = true
+				keys = append(keys, j.Key)
+			}
+		}
+		sort.Strings(keys)
+		for ki, k := range keys {
+			for _, kind := range bFaultKinds {
+				items = append(items, item{BFaultCase{Tier: "B", Shape: sh, Fault: Fault{Job: k, Kind: kind}}, p, ref})
+			}
+			// automatic retry costs seconds per restart (mrp's 3 s step):
+			// one job per shape in the quick tier, every job in the thorough
+			if r.Thorough() || ki == (si+1)%len(keys) {
+				items = append(items,
+					item{BFaultCase{Tier: "B", Shape: sh, Fault: Fault{Job: k, Kind: "kill-monitor", Times: 1}, Retries: 1}, p, ref},
+					item{BFaultCase{Tier: "B", Shape: sh, Fault: Fault{Job: k, Kind: "errors-early", Times: 1}, Retries: 1}, p, ref})
+				if r.Thorough() {
+					items = append(items,
+						item{BFaultCase{Tier: "B", Shape: sh, Fault: Fault{Job: k, Kind: "kill-monitor", Times: 2}, Retries: 1}, p, ref},
+						item{BFaultCase{Tier: "B", Shape: sh, Fault: Fault{Job: k, Kind: "kill-monitor", Times: 2}, Retries: 2}, p, ref})
+				}
+			}
+		}
+	}
+	// the slow (retry) items first, so that they overlap with the others
+	sort.SliceStable(items, func(i, j int) bool { return items[i].c.Retries > items[j].c.Retries })
+	for wi, it := range items {
+		if !r.Mine(wi) {
+			continue
+		}
+		if time.Now().After(deadline) {
+			r.Cap("time budget of the real-binary phase reached")
+			break
+		}
+		viol, class := evalBFault(it.c, it.p, it.ref)
+		key := fmt.Sprintf("B|%s|%s|%s|r%d.%d", it.c.Shape.Name(), it.c.Fault.Job, it.c.Fault.Kind, it.c.Retries, it.c.Fault.Times)
+		if class == "fault-site-not-reached" || class == "not-started" {
+			r.Eval("")
+			r.Outcome("tierb-" + class)
+			continue
+		}
+		r.Eval(key)
+		r.Add("tierb_runs", 1)
+		if len(viol) == 0 {
+			r.Outcome("tierb:" + it.c.Fault.Kind + ":" + class)
+			if wi%41 == 0 {
+				r.Sample(map[string]interface{}{"tier": "real binaries", "shape": it.c.Shape.Name(), "job": it.c.Fault.Job, "fault": it.c.Fault.Kind, "mrp": class})
+			}
+			continue
+		}
+		v2, _ := evalBFault(it.c, it.p, it.ref)
+		if normText(strings.Join(v2, "\n")) != normText(strings.Join(viol, "\n")) {
+			r.Inconclusive(key + ": non-reproducible: " + normText(viol[0]))
+			continue
+		}
+		r.Outcome("tierb-violation")
+		c := it.c
+		c.Shape.Program = it.p.MRO()
+		phase := c.Fault.Job[strings.LastIndex(c.Fault.Job, ".")+1:]
+		for _, v := range viol {
+			v = normText(v)
+			r.Report(ev.Finding{Sig: faultSig(v, FaultCase{Fault: c.Fault}, phase) + ":real",
+				What: fmt.Sprintf("real mrp/mrjob, %s, job %s fault %s autoretry=%d: %s", c.Shape.Name(), c.Fault.Job, c.Fault.Kind, c.Retries, v), Case: c})
+		}
+	}
+}
+
+// ---------------------------------------------------------------------------
+// C05 with real processes.
+
+// BCrashCase is the replayable unit of the real-binary interruption phase.
+type BCrashCase struct {
+	Tier  string `json:"tier"`
+	Shape DfCase `json:"shape"`
+	// Kind: kill (SIGKILL to mrp before its At-th file-system effect), term /
+	// int (that handled signal instead), jobkill (SIGKILL to mrp just before
+	// the At-th effect of the monitor of job Job)
+	Kind   string `json:"kind"`
+	At     int    `json:"at"`
+	Job    string `json:"job,omitempty"`
+	Effect string `json:"effect,omitempty"`
+}
+
+type bBaseline struct {
+	effects  int
+	outs     string
+	tree     string
+	jobFx    map[string]int
+	jobKeys  []string
+	refOuts  *progen.Val
+	fileProg bool
+}
+
+func normB(s string, r *BResult) string {
+	return uniqDirRe.ReplaceAllString(strings.ReplaceAll(s, r.PsDir, "<ps>"), "-u<uniq>")
+}
+
+func outsTreeB(r *BResult) string {
+	var lines []string
+	filepath.Walk(filepath.Join(r.PsDir, "outs"), func(pth string, info os.FileInfo, err error) error {
+		if err == nil && !info.IsDir() {
+			lines = append(lines, strings.TrimPrefix(pth, r.PsDir))
+		}
+		return nil
+	})
+	sort.Strings(lines)
+	return strings.Join(lines, "\n")
+}
+
+func vdrModeOf(sh DfCase) string {
+	if sh.Ff != nil {
+		return sh.Ff.Mode
+	}
+	return ""
+}
+
+func bBaselineOf(sh DfCase, p *progen.Program) *bBaseline {
+	b := &bBaseline{jobFx: map[string]int{}, fileProg: sh.Ff != nil}
+	r := RunB(p, BOptions{Install: "fsmrp", EffectLog: true, VdrMode: vdrModeOf(sh)})
+	defer r.Cleanup()
+	if r.Err != "" || r.Exit != 0 {
+		return nil
+	}
+	b.effects = len(r.Effects)
+	b.outs = normB(r.TopOuts, r)
+	b.tree = outsTreeB(r)
+	for _, o := range r.Obs {
+		b.jobKeys = append(b.jobKeys, o.Key)
+	}
+	sort.Strings(b.jobKeys)
+	rj := RunB(p, BOptions{Install: "fsjob", EffectLog: true, VdrMode: vdrModeOf(sh)})
+	defer rj.Cleanup()
+	for k, fx := range rj.JobFx {
+		b.jobFx[k] = len(fx)
+	}
+	if sh.Ff == nil {
+		if ref, err := progen.Interpret(p); err == nil {
+			b.refOuts = ref.TopOuts
+		}
+	}
+	return b
+}
+
+func evalBCrash(c BCrashCase, p *progen.Program, base *bBaseline) (viol []string, class, effect string) {
+	o1 := BOptions{KeepDir: true, VdrMode: vdrModeOf(c.Shape), Timeout: 60 * time.Second}
+	switch c.Kind {
+	case "kill":
+		o1.Install, o1.KillAt, o1.KillSig = "fsmrp", c.At, "KILL"
+	case "term":
+		o1.Install, o1.KillAt, o1.KillSig = "fsmrp", c.At, "TERM"
+	case "int":
+		o1.Install, o1.KillAt, o1.KillSig = "fsmrp", c.At, "INT"
+	case "jobkill":
+		o1.Install, o1.JobKillMatch, o1.JobKillAt = "fsjob", c.Job, c.At
+	}
+	r1 := RunB(p, o1)
+	if r1.Err != "" {
+		return nil, "not-started", ""
+	}
+	defer r1.Cleanup()
+	if n := len(r1.Effects); n > 0 {
+		effect = strings.ReplaceAll(r1.Effects[n-1], r1.Dir, "")
+		if strings.HasPrefix(effect, "SIGNAL") && n > 1 {
+			effect = strings.ReplaceAll(r1.Effects[n-2], r1.Dir, "")
+		}
+	}
+	if c.Kind == "jobkill" {
+		if fx := r1.JobFx[c.Job]; len(fx) > 0 {
+			effect = strings.ReplaceAll(fx[len(fx)-1], r1.Dir, "")
+			for _, l := range fx {
+				if strings.HasPrefix(l, "KILL") {
+					effect = "monitor of " + c.Job + ": " + strings.ReplaceAll(l, r1.Dir, "")
+				}
+			}
+		}
+	}
+	if r1.TimedOut {
+		return []string{"the interrupted mrp did not end within 60 s"}, "timeout", effect
+	}
+	interrupted := r1.Signal != "" || (r1.Exit != 0 && (c.Kind == "term" || c.Kind == "int"))
+	if !interrupted {
+		if r1.Exit == 0 && strings.Contains(r1.Console, "Pipestance completed successfully") {
+			return nil, "not-reached", effect // fewer effects in this run than the index
+		}
+		return []string{fmt.Sprintf("mrp ended with exit status %d without having been interrupted: %s", r1.Exit, firstLine(ConsoleTail(r1.Console, 3)))}, "odd", effect
+	}
+	handled := c.Kind == "term" || c.Kind == "int"
+	if handled {
+		if r1.Signal == "" && r1.Exit == 0 {
+			viol = append(viol, "mrp exited with status 0 after a termination signal")
+		}
+		if r1.Lock {
+			viol = append(viol, "a handled termination signal left the pipestance locked (_lock still present)")
+		}
+	}
+	done := map[string]bool{}
+	for _, d := range r1.Completed {
+		done[d] = true
+	}
+	recorded := map[string]bool{}
+	for _, o := range r1.Obs {
+		if o.How == "complete" && done[strings.TrimPrefix(o.MdPath, r1.PsDir+"/")] {
+			recorded[o.Key] = true
+		}
+	}
+	r2 := RunB(p, BOptions{Dir: r1.Dir, RemoveLock: true, VdrMode: vdrModeOf(c.Shape), Timeout: 60 * time.Second})
+	if r2.TimedOut {
+		return append(viol, "the restarted mrp did not end within 60 s"), "restart-timeout", effect
+	}
+	if r2.Exit != 0 || !strings.Contains(r2.Console, "Pipestance completed successfully") {
+		fq, log := ParseFailure(r2.Console)
+		creating := true
+		for _, e := range r1.Effects {
+			if strings.Contains(e, "/ps/_timestamp ") {
+				creating = false
+			}
+		}
+		if c.Kind == "jobkill" {
+			creating = false
+		}
+		if creating {
+			return append(viol, "restart refused after a crash during pipestance creation: "+normText(firstLine(log))), "restart-refused", effect
+		}
+		return append(viol, fmt.Sprintf("restarted pipestance ended with exit status %d: %s: %s", r2.Exit, fq, normText(firstLine(log)))), "restart-failed", effect
+	}
+	if base.fileProg {
+		if got := normB(r2.TopOuts, r2); got != base.outs {
+			viol = append(viol, "final outputs after restart differ from the uninterrupted run: "+firstDiff(base.outs, got))
+		}
+		if got := outsTreeB(r2); got != base.tree {
+			viol = append(viol, "the outs/ directory after restart differs from the uninterrupted run: "+firstDiff(base.tree, got))
+		}
+	} else if v, err := progen.ParseJSON([]byte(r2.TopOuts)); err != nil {
+		viol = append(viol, "restarted pipestance has no readable top-level outputs")
+	} else if base.refOuts != nil {
+		if d := progen.EqSlack(base.refOuts, v, "outs"); d != "" {
+			viol = append(viol, "final outputs after restart differ from the uninterrupted run: "+d)
+		}
+	}
+	var rerun []string
+	for _, o := range r2.Obs {
+		if recorded[o.Key] {
+			rerun = append(rerun, o.Key)
+		}
+	}
+	sort.Strings(rerun)
+	for _, k := range rerun {
+		viol = append(viol, "job "+k+" had recorded its completion before the interruption but was executed again")
+	}
+	return viol, "resumed", effect
+}
+
+// TierBCrash is the real-binary phase of C05.
+func TierBCrash(r *ev.Run) {
+	if os.Getenv("VERIF_NO_TIERB") != "" {
+		return
+	}
+	deadline := tierBDeadline(r, 60*time.Second, 15*time.Minute)
+	all := Shapes(true)
+	shapes := []DfCase{all[2], all[3]}
+	shapes = append(shapes, CrashFileShapes(false)[:1]...)
+	if r.Thorough() {
+		shapes = append(all[:6:6], CrashFileShapes(true)...)
+	}
+	type item struct {
+		c    BCrashCase
+		p    *progen.Program
+		base *bBaseline
+	}
+	var items []item
+	for _, sh := range shapes {
+		p := sh.Build()
+		if p == nil {
+			continue
+		}
+		base := bBaselineOf(sh, p)
+		if base == nil || base.effects == 0 {
+			r.Inconclusive("real binaries: no uninterrupted baseline for " + sh.Name())
+			continue
+		}
+		r.Add("tierb_mrp_effects", int64(base.effects))
+		for n := 1; n <= base.effects+2; n++ {
+			items = append(items, item{BCrashCase{Tier: "B", Shape: sh, Kind: "kill", At: n}, p, base})
+			items = append(items, item{BCrashCase{Tier: "B", Shape: sh, Kind: "term", At: n}, p, base})
+			if r.Thorough() {
+				items = append(items, item{BCrashCase{Tier: "B", Shape: sh, Kind: "int", At: n}, p, base})
+			}
+		}
+		for _, k := range base.jobKeys {
+			r.Add("tierb_monitor_effects", int64(base.jobFx[k]))
+			for m := 1; m <= base.jobFx[k]+1; m++ {
+				items = append(items, item{BCrashCase{Tier: "B", Shape: sh, Kind: "jobkill", At: m, Job: k}, p, base})
+			}
+		}
+	}
+	for wi, it := range items {
+		if !r.Mine(wi) {
+			continue
+		}
+		if time.Now().After(deadline) {
+			r.Cap("time budget of the real-binary phase reached")
+			break
+		}
+		viol, class, effect := evalBCrash(it.c, it.p, it.base)
+		key := fmt.Sprintf("B|%s|%s|%d|%s", it.c.Shape.Name(), it.c.Kind, it.c.At, it.c.Job)
+		if class == "not-reached" || class == "not-started" {
+			r.Eval("")
+			r.Outcome("tierb-" + class)
+			continue
+		}
+		r.Eval(key)
+		r.Add("tierb_runs", 1)
+		if len(viol) == 0 {
+			r.Outcome("tierb:" + it.c.Kind + ":" + class)
+			if wi%197 == 0 {
+				r.Sample(map[string]interface{}{"tier": "real binaries", "shape": it.c.Shape.Name(), "interruption": it.c.Kind, "at": it.c.At, "job": it.c.Job, "before_effect": effect})
+			}
+			continue
+		}
+		v2, _, _ := evalBCrash(it.c, it.p, it.base)
+		if normText(strings.Join(v2, "\n")) != normText(strings.Join(viol, "\n")) {
+			r.Inconclusive(key + ": non-reproducible: " + normText(viol[0]))
+			continue
+		}
+		r.Outcome("tierb-violation")
+		c := it.c
+		c.Effect = effect
+		c.Shape.Program = it.p.MRO()
+		for _, v := range viol {
+			v = normText(v)
+			sig := crashSig(v, effect)
+			if !strings.HasSuffix(sig, "during-creation") {
+				sig += ":real"
+			}
+			r.Report(ev.Finding{Sig: sig, What: fmt.Sprintf("real mrp/mrjob, %s, %s at %d %s (%s): %s", c.Shape.Name(), c.Kind, c.At, c.Job, effect, v), Case: c})
+		}
+	}
 }
